@@ -390,6 +390,11 @@ TASK_STATE_MACHINE_DATA = {
         events.ACTION_SUCCEEDED_TASK_DORMANT_ITEMS_COMPLETED: statuses.SUCCEEDED,
     },
     statuses.PAUSED: {
+        # An action (i.e. the next item of a with-items task) that has been requested for a paused
+        # task is in flight before it reports running: the task is no longer dormant.
+        events.ACTION_REQUESTED: statuses.RESUMING,
+        events.ACTION_SCHEDULED: statuses.RESUMING,
+        events.ACTION_DELAYED: statuses.RESUMING,
         events.ACTION_RUNNING: statuses.RUNNING,
         events.ACTION_RESUMING: statuses.RESUMING,
         events.ACTION_CANCELING: statuses.CANCELING,
